@@ -133,6 +133,24 @@ func replayDet(line []byte, a *Acc) {
 			if !check("AnyXml", ax, err, l.X) {
 				return
 			}
+			// a single key holding a list with a member that is not a map, in either order: the default root, in every variant
+			// (Map.Xml() = Map.Xml("doc"); the indented form differs in inter-element white space only)
+			if rep == 0 {
+				for _, lst := range [][]interface{}{{inner, "x"}, {"x", inner}, {inner, inner, 1.5}} {
+					lm := mxj.Map{"k": lst}
+					c1, e1 := lm.Xml()
+					c2, e2 := lm.Xml("doc")
+					ci, e3 := lm.XmlIndent("", "  ")
+					var cw bytes.Buffer
+					e4 := lm.XmlWriter(&cw)
+					t1, _ := significantTokens(c1, false)
+					t2, te := significantTokens(ci, false)
+					if e1 != nil || e2 != nil || e3 != nil || e4 != nil || string(c1) != string(c2) || cw.String() != string(c1) || te != nil || strings.Join(t1, "\x00") != strings.Join(t2, "\x00") {
+						one("det:list-root", fmt.Sprintf("single key with a mixed list: Xml() = %q (%v), Xml(\"doc\") = %q (%v), XmlWriter wrote %q (%v), XmlIndent = %q (%v)", c1, e1, c2, e2, cw.String(), e4, ci, e3))
+						return
+					}
+				}
+			}
 			// the validity check on top changes nothing for well-formed output (escaping is on): every variant returns / writes the same bytes
 			if rep == 0 && wellFormed(b) == nil {
 				mxj.XmlCheckIsValid(true)
